@@ -39,6 +39,10 @@ def relay_universe():
         E("r2", "A", 10000, 25, [["t", "b"]]),
         E("fx", "B", 1, 35, [["t", "a"]], mutate=_wrong_id),      # signed correctly, id field is not the hash
         E("fs", "A", 1, 36, [["t", "a"]], mutate=_bad_sig),
+        # events on which add_event raises something other than a StorageError (a signature that is not hex; a correctly
+        # signed event with an empty tag): whatever the handler makes of them, OK=true needs a fan-out
+        E("fh", "B", 1, 37, [["t", "a"]], mutate=_nonhex_sig),
+        E("we", "A", 1, 38, [["t", "a"], []]),
     ]
 
 
@@ -59,6 +63,12 @@ def weird_events():
 def _wrong_id(ev, uni):
     ev = dict(ev)
     ev["id"] = "%064x" % (int(ev["id"], 16) ^ 0xFFFF)
+    return ev
+
+
+def _nonhex_sig(ev, uni):
+    ev = dict(ev)
+    ev["sig"] = "zz" + ev["sig"][2:]
     return ev
 
 
@@ -150,7 +160,7 @@ def run(prop, tier, seed, backends=BACKENDS, only_universe=None):
     variants = [(Universe(relay_universe()), "hostile" if prop == "C04" else "plain")]
     if prop == "C04":
         # contents, tag values and tag items that pass admission but stress the hand-written serialiser and both encodings
-        for pal in ("quotes", "nul", "unicode"):
+        for pal in ("quotes", "nul", "unicode", "bslash"):
             variants.append((Universe(relay_universe() + weird_events(), palette=pal, symtab=WEIRD_SYMTAB), "hostile"))
     num = {"quick": 40, "thorough": 400}[tier]
     cap = {"quick": {"sql": 160, "lmdb": 400}, "thorough": {"sql": 3000, "lmdb": 8000}}[tier]
